@@ -92,8 +92,78 @@ func brokerInit() {
 	})
 }
 
+// failWriteConn is the broker's end of a connection whose peer can no longer be written to:
+// reads deliver what the peer sent, every write fails.
+type failWriteConn struct {
+	net.Conn
+}
+
+func (f *failWriteConn) Write(p []byte) (int, error) {
+	return 0, io.ErrClosedPipe
+}
+
+// halfConn is the broker's end of a connection whose peer can shut down its sending direction only
+// (TCP FIN, `CloseWrite`): after shut() every Read - a pending one included - returns io.EOF, while
+// writes go on as before (they block for as long as the peer does not read).  net.Pipe has no
+// half-close of its own.
+type halfConn struct {
+	net.Conn
+	shutCh chan struct{}
+	once   sync.Once
+}
+
+func newHalfConn(c net.Conn) *halfConn {
+	h := &halfConn{Conn: c, shutCh: make(chan struct{})}
+	go func() {
+		<-h.shutCh
+		// wakes a pending Read (it fails with a timeout, which Read below turns into io.EOF)
+		h.Conn.SetReadDeadline(time.Unix(1, 0))
+	}()
+	return h
+}
+
+func (h *halfConn) shut() { h.once.Do(func() { close(h.shutCh) }) }
+
+func (h *halfConn) isShut() bool {
+	select {
+	case <-h.shutCh:
+		return true
+	default:
+		return false
+	}
+}
+
+func (h *halfConn) Read(p []byte) (int, error) {
+	if h.isShut() {
+		return 0, io.EOF
+	}
+	n, err := h.Conn.Read(p)
+	if err != nil && n == 0 && h.isShut() {
+		return 0, io.EOF
+	}
+	return n, err
+}
+
+func (h *halfConn) SetReadDeadline(t time.Time) error {
+	if h.isShut() {
+		return nil
+	}
+	return h.Conn.SetReadDeadline(t)
+}
+
+func (h *halfConn) SetDeadline(t time.Time) error {
+	if h.isShut() {
+		return h.Conn.SetWriteDeadline(t)
+	}
+	return h.Conn.SetDeadline(t)
+}
+
+// halfCloseable: connections made by rawConnectWith get a halfConn as the broker's end
+var halfCloseable bool
+
 type rawClient struct {
 	id         int
+	half       *halfConn // the broker's end, if it can be half-closed (life scenarios with cause halfclose)
 	conn       net.Conn
 	stopped    chan struct{}
 	mu         sync.Mutex
@@ -226,6 +296,7 @@ type brokerCore struct {
 	keepConnack bool // rawfirst: the CONNACK answering the first packet is kept in front of CLOSED
 	ring        int  // size of a connection's ring buffers
 	pipelined   []byte
+	failWrite   bool // `failfirst`: the next first packet arrives on a connection that refuses writes
 	svr         *service.Server
 	clients     map[int]*rawClient
 	cbs         map[int]*service.OnPublishFunc
@@ -596,7 +667,13 @@ func (b *brokerCore) handle(ws []string) string {
 		case "garbage":
 			bytes = []byte{0x10, 0xff, 0xff, 0xff, 0xff, 0xff, 0x01}
 		}
-		cl, sv := net.Pipe()
+		cl, sv0 := net.Pipe()
+		var sv net.Conn = sv0
+		if b.failWrite {
+			// `failfirst`: the broker's end of the connection refuses every write (the peer has gone
+			// after sending its first packet): the answer to the first packet cannot be written
+			sv = &failWriteConn{Conn: sv0}
+		}
 		c := newRawClient(id, cl)
 		c.stopped = make(chan struct{})
 		stoppedMu.Lock()
@@ -640,6 +717,12 @@ func (b *brokerCore) handle(ws []string) string {
 			return b.collect(-1, false, map[int][]string{id: items})
 		}
 		return b.collect(id, false, nil)
+	case "failfirst":
+		// a first packet on a connection to which the broker cannot write
+		b.failWrite = true
+		res := b.handle(append([]string{"first"}, ws[1:]...))
+		b.failWrite = false
+		return res
 	case "firstp":
 		// CONNECT and one further packet in a single write, before the CONNACK is read
 		semi := -1
